@@ -27,6 +27,7 @@ theorem bottomUp_pres {F : Expr → Option Expr} (hP : Pres g F) :
   | visibleHeads => intro h; rw [bottomUp]; exact pres_finish hP h
   | visibleHeadsOrReferenced => intro h; rw [bottomUp]; exact pres_finish hP h
   | root => intro h; rw [bottomUp]; exact pres_finish hP h
+  | forks => intro h; rw [bottomUp]; exact pres_finish hP h
   | commits l => intro h; rw [bottomUp]; exact pres_finish hP h
   | ancestors x lo hi fp ih => intro h; rw [bottomUp]; exact pres_finish hP (e1 := .ancestors _ lo hi fp) (ih h)
   | descendants x lo hi ih => intro h; rw [bottomUp]; exact pres_finish hP (e1 := .descendants _ lo hi) (ih h)
@@ -40,6 +41,7 @@ theorem bottomUp_pres {F : Expr → Option Expr} (hP : Pres g F) :
     exact pres_finish hP (e1 := .headsRange _ _ fp _) ⟨ihr h.1, ihx h.2.1, ihf h.2.2⟩
   | roots x ih => intro h; rw [bottomUp]; exact pres_finish hP (e1 := .roots _) (ih h)
   | forkPoint x ih => intro h; rw [bottomUp]; exact pres_finish hP (e1 := .forkPoint _) (ih h)
+  | mergePoint x ih => intro h; rw [bottomUp]; exact pres_finish hP (e1 := .mergePoint _) (ih h)
   | latest x n ih => intro h; rw [bottomUp]; exact pres_finish hP (e1 := .latest _ n) (ih h)
   | coalesce a b iha ihb => intro h; rw [bottomUp]; exact pres_finish hP (e1 := .coalesce _ _) ⟨iha h.1, ihb h.2⟩
   | notIn x ih => intro h; rw [bottomUp]; exact pres_finish hP (e1 := .notIn _) (ih h)
